@@ -152,6 +152,27 @@ def generate(rng, tier):
                 add("parse " + w([BS, LU, LB] + list(d) + tail), "parse_brace_shapes")
                 nshape += 1
 
+    # 1b. random walks over the escape tokens with runs of hex digits: a parser state left over from
+    # an abandoned escape attempt must not capture later characters (e.g. \2u22222 or \u{gabcd})
+    nwalk = 4000 if quick else 100000
+    for _ in range(nwalk):
+        t = []
+        for _k in range(rng.randint(2, 6)):
+            r = rng.random()
+            if r < 0.22:
+                t.append(BS)
+            elif r < 0.40:
+                t.append(LU)
+            elif r < 0.52:
+                t.append(LB)
+            elif r < 0.64:
+                t.append(RB)
+            elif r < 0.76:
+                t.append(rng.choice([103, 32, 85, QUOTE, 0x80, 120]))
+            else:
+                t += [rng.choice([48, 50, 52, 65, 102, 70]) for _ in range(rng.randint(1, 7))]
+        add("parse " + w(t), "parse_walk")
+
     # 2. random texts with planted escapes
     nrand = 4000 if quick else 150000
     for _ in range(nrand):
